@@ -9,7 +9,7 @@ STYLE=("Earlier changes were mostly off-by-one, wrong-operator and swapped-argum
  "a loop bound, state that is not reset between two calls, a mishandled error path, or a front-end / dispatch step in a request handler that runs "
  "before the shared logic. The effect must be observable through the public LSP behaviour (answers to requests, published diagnostics, or the process dying). "
  "Prefer inputs that look like ordinary real-world Lua code, ordinary project layouts, ordinary client configurations or ordinary editing sessions rather than contrived ones; "
- "larger, multi-file or multi-step inputs are welcome. While exploring, if you notice that the UNMODIFIED code already violates the property on some realistic input, "
+ "larger, multi-file or multi-step inputs are welcome. Less explored so far: project mode (luahelper.json with ProjectFiles / several entry files), settings given through luahelper.json, several workspace folders (workspace/didChangeWorkspaceFolders), non-ASCII text, Windows line endings, files outside the workspace folder, requests on documents that were never saved. While exploring, if you notice that the UNMODIFIED code already violates the property on some realistic input, "
  "mention that input in your final summary as a separate note (it is not your seeded change); say for each such note whether you ran it or only read the code.")
 for i in range(1,21):
     pid='C%02d'%i
